@@ -60,6 +60,8 @@ var c11Alphabet = []RegOp{
 	{Kind: "drop", Target: "b2"},
 	{Kind: "drop", Target: "b3"},
 	{Kind: "regconn", Target: "b1", Adv: []string{svcMessaging}}, // the backend's service set changed
+	{Kind: "regconn", Target: "b3", Adv: []string{svcFiles, svcMessaging}}, // two services of one proto file
+	{Kind: "regconn", Target: "b3", Adv: []string{}},                       // ... and then nothing at all
 	{Kind: "regconn", Target: "b2", Fail: "refl:1"},
 	{Kind: "regconn", Target: "b3", Fail: "cancel"},
 }
@@ -122,6 +124,9 @@ func genProbes(r *core.Rand, sc *MuxScenario, rounds int, full bool) {
 func genC11(r *core.Rand, run int) *MuxScenario {
 	sc := &MuxScenario{Prop: "C11", Knobs: Knobs{MaxRecv: 65536}, Local: []string{"-"}, SkipRegister: true, Sequential: true, NoDefaultRules: true, Rules: registryRules}
 	sc.Backends = append([]BackendSpec(nil), c11Backends...)
+	for i := range sc.Backends {
+		sc.Backends[i].Verbose = (run+i)%2 == 1 // two reflection implementations
+	}
 	var ops []RegOp
 	A := len(c11Alphabet)
 	short := A + A*A + A*A*A
@@ -150,7 +155,7 @@ func genC11(r *core.Rand, run int) *MuxScenario {
 			case 1:
 				op = RegOp{Kind: "regconn", Target: r.PickS("b1", "b2", "b3"), Fail: r.PickS("refl:0", "refl:1", "refl:2", "cancel")}
 			case 2:
-				op = RegOp{Kind: "regconn", Target: r.PickS("b2", "b3"), Adv: [][]string{{tsvc}, {svcFiles}, {tsvc, svcMessaging}, {}}[r.Intn(4)]}
+				op = RegOp{Kind: "regconn", Target: r.PickS("b2", "b3"), Adv: [][]string{{tsvc}, {svcFiles}, {tsvc, svcMessaging}, {}, {svcFiles, svcMessaging}, {tsvc, svcFiles, svcMessaging}, {svcMessaging, svcFiles}}[r.Intn(7)]}
 			case 3:
 				if k > n/2 {
 					op = RegOp{Kind: "regconn", Target: "b3", Fail: "dead"}
